@@ -409,3 +409,68 @@ def makeUnique_gives_a_copy_a_placeholder_number_and_renames_it_and_its_blocks(n
     for k in range(nb):
         assert blocks[k].name == "B{0:04d}-{1:03d}".format(m, k), "every block is renamed after the new number and its axial position"
         assert blocks[k].p.assemNum == m and same(blocks[k].parent, a) and blocks[k].p.serialNum == k
+
+
+# ---------------------------------------------------------------------------------------------- a core of assemblies
+Core = repo("armi.reactor.cores:Core")
+Reactor = repo("armi.reactor.reactors:Reactor")
+CELLS = [(0, 0), (1, 0), (0, 1), (2, -1)]
+
+
+@lemma(gen={"n": (0, 3), "c0": (0, 3), "c1": (0, 3), "c2": (0, 3), "nb": (1, 2)})
+def deep_copy_of_a_core_has_truthful_lookups_of_its_own(n: int, c0: int, c1: int, c2: int, nb: int, hasReactor: bool, pw: float):
+    """Core.__deepcopy__ (through copy.deepcopy) on a core holding n = 0..3 assemblies (listed in ANY order of the cells
+    (0,0), (1,0), (0,1), (2,-1); nb = 1..2 blocks each) with its three lookup tables filled, inside a reactor or not: the
+    copy is a parentless core whose children, grid and locations are its own and re-linked,
+    and whose location / assembly-name / block-name lookups (rebuilt by Core.__setstate__ -> regenAssemblyLists with the
+    REAL getAssemblies / getBlocks / sort by location) resolve to ITS assemblies and blocks - exactly those; the
+    original core and its tables are untouched."""
+    n = choose(n, 0, 3)
+    nb = choose(nb, 1, 2)
+    c0 = choose(c0, 0, 3)
+    c1 = choose(c1, 0, 3)
+    c2 = choose(c2, 0, 3)
+    cells = [c0, c1, c2][:n]
+    assume(len(set(cells)) == n)
+    g = hexgrid()
+    core = new(Core, name="core", parent=None, cached={}, _backupCache=None, p=new(PStub, power=pw, flux=[pw]), _lumpedFissionProducts=None, spatialGrid=g,
+               spatialLocator=None, childrenByLocator={}, _children=[], assembliesByName={}, blocksByName={}, numRings=3, _trackAssems=False, zones=[])
+    g.armiObject = core
+    r = None
+    if hasReactor:
+        r = new(Reactor, name="r", parent=None, cached={}, _backupCache=None, p=new(PStub, power=0.0, flux=[]), _lumpedFissionProducts=None, spatialGrid=None,
+                spatialLocator=None, childrenByLocator={}, _children=[core], core=core, o=None, blueprints=None)
+        core.parent = r
+    assems = []
+    for q in range(n):
+        a = new(Assembly, name="A%04d" % q, parent=core, cached={}, _backupCache=None, p=new(PStub, assemNum=q, type="fuel"), _lumpedFissionProducts=None, spatialGrid=None,
+                spatialLocator=g[CELLS[cells[q]][0], CELLS[cells[q]][1], 0], childrenByLocator={}, _children=[], lastLocationLabel="LoadQueue")
+        for k in range(nb):
+            b = node("B%04d-%03d" % (q, k), pw + k)
+            b.parent = a
+            a._children.append(b)
+            core.blocksByName[b.name] = b
+        core._children.append(a)
+        core.childrenByLocator[a.spatialLocator] = a
+        core.assembliesByName[a.name] = a
+        assems.append(a)
+    c2_ = copy.deepcopy(core)
+    originals = [core] + assems + [b for a in assems for b in a._children]
+    assert none_of(c2_, originals) and isinstance(c2_, Core) and c2_.parent is None, "a parentless core"
+    g2 = c2_.spatialGrid
+    assert not same(g2, g) and same(g2.armiObject, c2_) and len(c2_._children) == n
+    assert len(c2_.childrenByLocator) == n and len(c2_.assembliesByName) == n and len(c2_.blocksByName) == n * nb, "the tables list exactly what the copy holds"
+    for q in range(n):
+        a2 = c2_._children[q]
+        i, j = CELLS[cells[q]]
+        assert none_of(a2, originals) and a2.name == "A%04d" % q and same(a2.parent, c2_), "its own assemblies, same order"
+        assert same(a2.spatialLocator.grid, g2) and a2.spatialLocator.i == i and a2.spatialLocator.j == j and same(g2._locations[(i, j, 0)], a2.spatialLocator)
+        assert same(c2_.childrenByLocator[g2[i, j, 0]], a2) and same(c2_.childrenByLocator.get((i, j, 0)), a2), "lookup by location finds the copy's assembly"
+        assert same(c2_.assembliesByName["A%04d" % q], a2), "lookup by name finds the copy's assembly"
+        assert len(a2._children) == nb
+        for k in range(nb):
+            b2 = a2._children[k]
+            assert none_of(b2, originals) and same(b2.parent, a2) and same(c2_.blocksByName["B%04d-%03d" % (q, k)], b2) and b2.p.power == pw + k
+        # the original
+        assert same(core._children[q], assems[q]) and same(assems[q].parent, core) and same(core.childrenByLocator[g[i, j, 0]], assems[q]) and same(core.assembliesByName["A%04d" % q], assems[q])
+    assert same(core.parent, r) and same(g.armiObject, core) and len(core.childrenByLocator) == n and len(core.blocksByName) == n * nb and core.name == "core"
